@@ -7,6 +7,13 @@ expressed as: evaluation of the dispatch root chain equals the evaluation of `c`
 the endpoint chains are not part of the dispatch chain set, `evalChain` reports `.missing c`
 (control left the dispatch chains towards exactly `c`).
 
+Naming: the nftables theorems (`workload_dispatch_exact_nft`, `nft_dispatch_after_history`,
+`maps_apply_exact`) and the name theorems are full strength.  The prefix-tree theorems are
+`…_partial`: they carry the guard "no configured name ends in the wildcard byte", without which
+the property is false of the code (a name `c+` is rendered as the pattern `c+`, see the last
+`example`; unreachable for Calico-generated interface names), and the host theorem covers
+`HostDispatchChains(endpoints, default, applyOnForward = false)` only.
+
 Guards (each stated as an explicit hypothesis, each necessary — see the `example`s at the end):
 * no configured name is empty (the real code panics; `sortAndDivide = none`);
 * no configured name ends in the dataplane's wildcard byte (`+` / `*`): such a name is a pattern;
@@ -36,7 +43,7 @@ theorem childChain_multi (chainName ifx epPfx : String) (d : IfDir) (cp : Bytes)
 /-- **Prefix-tree dispatch is exact** (any dataplane, any end rules, any chain set that contains
 the tree's chains): a packet on a configured interface leaves the dispatch chains towards that
 interface's endpoint chain and no other; any other packet reaches the end rules. -/
-theorem tree_chain_exact (env : Env) (chains : List Chain) (pkt : Packet) (d : IfDir)
+theorem tree_chain_exact_partial (env : Env) (chains : List Chain) (pkt : Packet) (d : IfDir)
     (names : List Bytes) (t : Tree) (chainName ifx epPfx : String) (endRules : List Rule)
     (G : Nat) (mark : Mark)
     (hsd : sortAndDivide names = some t)
@@ -89,7 +96,7 @@ theorem runRules_deny (env : Env) (call : String → Mark → Result) (pkt : Pac
 /-- **Workload dispatch (iptables) is exact and fails closed**, both directions: traffic from /
 to a configured workload interface goes to that interface's `cali-fw-` / `cali-tw-` chain,
 traffic on any other interface is dropped (or rejected, per `FilterDenyAction`). -/
-theorem workload_dispatch_exact_ipt (names : List Bytes) (reject : Bool) (chains : List Chain)
+theorem workload_dispatch_exact_ipt_partial (names : List Bytes) (reject : Bool) (chains : List Chain)
     (pkt : Packet) (G : Nat) (mark : Mark)
     (hc : workloadDispatchChains .ipt reject names = some chains)
     (hw : ∀ n ∈ names, n.getLast? ≠ some (wildcardByte .ipt)) :
@@ -113,7 +120,7 @@ theorem workload_dispatch_exact_ipt (names : List Bytes) (reject : Bool) (chains
       intro cn pf d e; simp [buildSingle]
     simp only [hbs, pfxFromWl, pfxToWl, ne_eq, String.reduceEq, not_false_eq_true, if_true] at hc
     constructor
-    · have h := tree_chain_exact (mkEnv .ipt names) chains pkt .inp names t chainFromWl "" pfxFromWl
+    · have h := tree_chain_exact_partial (mkEnv .ipt names) chains pkt .inp names t chainFromWl "" pfxFromWl
         (unknownIfaceRules reject) G mark hsd hw
         (by
           intro c hcm; rw [← hc]
@@ -128,7 +135,7 @@ theorem workload_dispatch_exact_ipt (names : List Bytes) (reject : Bool) (chains
       · rename_i hx
         obtain ⟨F, _, hF⟩ := h.2 hx
         rw [hF, runRules_deny]
-    · have h := tree_chain_exact (mkEnv .ipt names) chains pkt .out names t chainToWl "" pfxToWl
+    · have h := tree_chain_exact_partial (mkEnv .ipt names) chains pkt .out names t chainToWl "" pfxToWl
         (unknownIfaceRules reject) G mark hsd hw
         (by
           intro c hcm; rw [← hc]
@@ -266,7 +273,7 @@ theorem runRules_skip (env : Env) (call : String → Mark → Result) (pkt : Pac
 dataplane): known host interfaces go to their own `cali-fh-`/`cali-th-` chain; anything else goes
 to the wildcard host endpoint's chain only if one is configured (and, towards a workload
 interface prefix, not at all); with no wildcard endpoint the packet just returns. -/
-theorem host_dispatch_exact (dp : Dataplane) (names : List Bytes) (dflt : Bytes) (wlp : List Bytes)
+theorem host_dispatch_exact_partial (dp : Dataplane) (names : List Bytes) (dflt : Bytes) (wlp : List Bytes)
     (chains : List Chain) (pkt : Packet) (G : Nat) (mark : Mark)
     (hc : hostDispatchChains dp names dflt wlp .both false = some chains)
     (hw : ∀ n ∈ names, n.getLast? ≠ some (wildcardByte dp)) :
@@ -309,7 +316,7 @@ theorem host_dispatch_exact (dp : Dataplane) (names : List Bytes) (dflt : Bytes)
       obtain ⟨F', rfl⟩ : ∃ F', F = F' + 1 := ⟨F - 1, by omega⟩
       exact evalChain_missing (hext _ (Or.inr (Or.inr rfl))) _ _
     constructor
-    · have h := tree_chain_exact (mkEnv dp names) chains pkt .inp names t "cali-from-host-endpoint" ""
+    · have h := tree_chain_exact_partial (mkEnv dp names) chains pkt .inp names t "cali-from-host-endpoint" ""
         "cali-fh-" _ G mark hsd hw
         (by
           intro c hcm; rw [← hc]
@@ -328,7 +335,7 @@ theorem host_dispatch_exact (dp : Dataplane) (names : List Bytes) (dflt : Bytes)
         · simp [hd, runRules]
         · simp only [hd, not_false_eq_true, if_true, if_false, runRules_goto_only]
           exact hmissF F hF1 hd
-    · have h := tree_chain_exact (mkEnv dp names) chains pkt .out names t "cali-to-host-endpoint" ""
+    · have h := tree_chain_exact_partial (mkEnv dp names) chains pkt .out names t "cali-to-host-endpoint" ""
         "cali-th-" _ G mark hsd hw
         (by
           intro c hcm; rw [← hc]
@@ -353,6 +360,52 @@ theorem host_dispatch_exact (dp : Dataplane) (names : List Bytes) (dflt : Bytes)
           split
           · rfl
           · rw [runRules_goto_only]; exact hmissT F hF1 hd
+
+/-! ### nftables: the verdict maps through histories of workload sets -/
+
+/-- **`AddOrReplaceMap` + `Apply()` converges from ANY prior state of the map**: afterwards the
+kernel holds exactly the new member set — nothing at all when the new set is empty. -/
+theorem maps_apply_exact (s : MapState) (m : List Member) (e : Member) :
+    e ∈ ((s.addOrReplace m).apply).dataplane ↔ e ∈ m := mapState_apply_mem s m e
+
+/-- the kernel state of the two maps after (any history followed by) a workload-set update and
+`Apply()` yields exactly the verdicts of `DispatchMappings` for that set -/
+theorem setWorkloads_env (s : MapsState) (names : List Bytes) :
+    (s.setWorkloads names).env = mkEnv .nft names := by
+  unfold MapsState.env mkEnv
+  congr 1
+  funext mapName key
+  simp only [MapsState.setWorkloads, vmapEnv, dispatchMappings, MapState.verdict]
+  by_cases h1 : mapName = chainFromWl
+  · simp only [h1, if_true]
+    have := find_val_of_set_eq _ _ (mapState_apply_mem s.fromWl _) (dispatchMappings_functional names pfxFromWl) key
+    have h' := congrArg (Option.map Action.goto) this
+    simpa [Option.map_map, Function.comp_def] using h'
+  · by_cases h2 : mapName = chainToWl
+    · simp only [h1, h2, if_false, if_true]
+      have hne : ¬ chainToWl = chainFromWl := by decide
+      simp only [hne, if_false]
+      have := find_val_of_set_eq _ _ (mapState_apply_mem s.toWl _) (dispatchMappings_functional names pfxToWl) key
+      have h' := congrArg (Option.map Action.goto) this
+      simpa [Option.map_map, Function.comp_def] using h'
+    · simp [h1, h2]
+
+/-- **nftables workload dispatch is exact on the resulting kernel state after ANY history** of
+workload-interface sets (including transitions to and from the empty set): once the endpoint
+manager has pushed the set `names` through `AddOrReplaceMap` and `Apply()`, a packet on a
+configured interface is handed to that interface's chain and any other interface — in particular
+one that WAS configured earlier in the history — is denied. -/
+theorem nft_dispatch_after_history (s : MapsState) (names : List Bytes) (reject : Bool) (chains : List Chain)
+    (pkt : Packet) (G : Nat) (mark : Mark)
+    (hc : workloadDispatchChains .nft reject names = some chains) :
+    evalChain (s.setWorkloads names).env chains pkt (G + 2) chainFromWl mark =
+      (if pkt.inIface ∈ names then .missing (endpointChainName pfxFromWl pkt.inIface)
+       else .verdict (if reject then .reject else .drop) mark) ∧
+    evalChain (s.setWorkloads names).env chains pkt (G + 2) chainToWl mark =
+      (if pkt.outIface ∈ names then .missing (endpointChainName pfxToWl pkt.outIface)
+       else .verdict (if reject then .reject else .drop) mark) := by
+  rw [setWorkloads_env]
+  exact workload_dispatch_exact_nft names reject chains pkt G mark hc
 
 /-! ### non-vacuity and necessity of the guards -/
 
